@@ -17,7 +17,7 @@ ASSUMPTIONS = ['input indices are naturals (negative inIdx is outside the proper
 RULE = ('uniformly random byte strings of length 0..10,001 for both scripts, structure-aware programs and their byte-level '
         'mutants, truncated pushes at every position of a valid script, P2SH-shaped scriptPubKeys with garbage and with matching '
         'redeem scripts, scripts at each documented limit (201 ops, 1000 items through opcodes and through raw pushes, 520-byte push, 10000-byte script) in either position, all 16 flag sets (CLEANSTACK without P2SH = known finding F5, unconstrained), immutable and mutable '
-        'transactions, input index 0 / 1 / out of range. non-trivial = constrained; distinct by case text')
+        'transactions whose other inputs are signed or still unsigned, input index 0 / 1 / out of range; CHECKSIG / CHECKMULTISIG / P2PKH shapes with every base hash type in the signature; CHECKMULTISIG(VERIFY) with key / signature counts outside 0..20 on stacks of depth 0..25. non-trivial = constrained; distinct by case text')
 IN_COQ_SAMPLE = 30
 
 
@@ -53,7 +53,7 @@ def generate(rng, tier, boost):
     cases = []
 
     def add(ssig, spk):
-        cases.append((701, [ssig, spk, rng.randrange(16), rng.randrange(6)]))
+        cases.append((701, [ssig, spk, rng.randrange(16), rng.randrange(12)]))
     for _ in range(30000 if big else 1500):
         r = rng.random()
         if r < 0.35:
@@ -91,6 +91,23 @@ def generate(rng, tier, boost):
         add(b'\x00' * n, b'\x51')
         add(b'\x01\x07' * n, b'\x75' * 3 + b'\x6a')
         add(b'\x51', b'\x00' * (n - 200) + b'\x6b' * 150 + b'\x00' * 200 + b'\x6a')
+    # signature checks that reach the signature-hash code with every base hash type, on every kind of
+    # transaction (mutable / immutable, other inputs signed / unsigned): nothing may be modified
+    pk = b'\x02' + bytes(range(1, 33))
+    for ht in (0, 1, 2, 3, 0x22, 0x43, 0x81, 0x82, 0x83, 0xff):
+        sig = rbytes(rng, rng.choice([9, 40, 71, 72])) + bytes([ht])
+        for mode in range(12):
+            cases.append((701, [G.push(sig), G.push(pk) + b'\xac', rng.randrange(16), mode]))
+        cases.append((701, [b'\x00' + G.push(sig), b'\x51' + G.push(pk) + b'\x51\xae', rng.randrange(16), rng.choice([1, 7, 9])]))
+        cases.append((701, [G.push(sig) + G.push(pk), b'\x76\xa9' + G.push(h160(pk)) + b'\x88\xac', rng.randrange(16), rng.choice([1, 7, 9])]))
+    # CHECKMULTISIG / CHECKMULTISIGVERIFY with key and signature counts outside 0..20 on shallow and deep stacks
+    for cnt in (-1, -2, -3, -4, -21, -128, 21, 22, 100, 255, 2 ** 31 - 1, -(2 ** 31) + 1):
+        for depth in (0, 1, 2, 3, 5, 25):
+            for opc in (b'\xae', b'\xaf'):
+                pre = b''.join(G.push(bytes([k + 1])) for k in range(depth))
+                add(b'', pre + G.push_num(cnt) + opc)
+                # valid key count, bad signature count
+                add(b'', pre + G.push_num(cnt) + G.push(pk) + b'\x51' + opc)
     # truncated pushes at EVERY position of one valid script
     base = b'\x51\x02\xaa\xbb\x75\x4c\x03\x01\x02\x03\x75\x63\x52\x67\x53\x68\x75\x4d\x02\x00\x09\x09\x75'
     for k in range(len(base) + 1):
